@@ -108,6 +108,13 @@ fn wtlfu_menu(tier: Tier) -> Vec<Cfg> {
         wtlfu(1, 1, 1, 3, SEEDS[1], KHKind::Spread),
         wtlfu(1, 2, 1, 3, SEEDS[0], KHKind::Spread),
         wtlfu(1, 1, 2, 3, SEEDS[0], KHKind::Identity),
+        {
+            // clone-and-continue on asymmetric segments (a clone that mixes up the two sizes mis-decides demotions)
+            let mut c = wtlfu(1, 1, 2, 3, SEEDS[1], KHKind::Spread);
+            c.with_clone = true;
+            c.keys = 4;
+            c
+        },
         wtlfu(1, 1, 2, 2, SEEDS[3], KHKind::Spread),
         wtlfu(1, 2, 2, 4, SEEDS[0], KHKind::Spread),
         wtlfu(2, 1, 1, 5, SEEDS[2], KHKind::Spread),
@@ -132,7 +139,58 @@ fn wtlfu_menu(tier: Tier) -> Vec<Cfg> {
 
 /// the "policy" menu: every kind, fast types, one value version
 fn policy_menu(kind: Kind, tier: Tier) -> Vec<Cfg> {
-    alternate_builders(policy_menu_inner(kind, tier))
+    let mut v = alternate_builders(policy_menu_inner(kind, tier));
+    v.extend(default_ctor_menu(kind, tier));
+    v
+}
+
+/// the constructors that take no hasher (`new`, `with_recent_ratio`, `with_ghost_ratio`,
+/// `with_2q_parameters`): their own argument plumbing is part of "every accepted configuration"
+fn default_ctor_menu(kind: Kind, tier: Tier) -> Vec<Cfg> {
+    let path = |mut c: Cfg, p: u8| {
+        c.builder_path = p;
+        c.with_clone = false;
+        c
+    };
+    let big = tier == Tier::Thorough;
+    match kind {
+        Kind::Slru => {
+            let mut v = vec![path(slru(1, 2, 1), 2), path(slru(2, 1, 1), 2)];
+            if big {
+                v.push(path(slru(2, 3, 1), 2));
+                v.push(path(slru(3, 1, 2), 6));
+            }
+            v
+        }
+        Kind::Arc => {
+            let mut v = vec![path(arc(2, 1), 2)];
+            if big {
+                v.push(path(arc(1, 2), 2));
+                v.push(path(arc(3, 1), 6));
+            }
+            v
+        }
+        Kind::TwoQ => {
+            let mut v = vec![
+                path(twoq(2, 0.25, 0.5, 1), 2),
+                path(twoq(4, 0.25, 0.5, 1), 2),
+                path(twoq(3, 0.75, 0.5, 1), 3), // with_recent_ratio(3, 0.75): quota 2, ghost bound 1
+                path(twoq(4, 1.0, 0.5, 1), 3),
+                path(twoq(2, 0.0, 0.5, 1), 3),
+                path(twoq(3, 0.25, 1.0, 1), 4), // with_ghost_ratio(3, 1.0): quota 0, ghost bound 3
+                path(twoq(4, 0.25, 0.75, 1), 4),
+                path(twoq(3, 0.67, 0.34, 1), 5),
+            ];
+            if big {
+                v.push(path(twoq(5, 0.6, 0.5, 1), 3));
+                v.push(path(twoq(5, 0.25, 0.8, 1), 4));
+                v.push(path(twoq(4, 0.5, 0.25, 2), 5));
+                v.push(path(twoq(3, 0.25, 0.5, 2), 6));
+            }
+            v
+        }
+        _ => vec![],
+    }
 }
 
 fn policy_menu_inner(kind: Kind, tier: Tier) -> Vec<Cfg> {
@@ -339,6 +397,11 @@ pub fn plan(prop: &str, tier: Tier) -> Vec<RunSpec> {
                 for c in policy_menu(k, tier) {
                     out.push(spec(c, obs_want()));
                 }
+                for (c, d) in large_menu(k, tier).into_iter().take(1) {
+                    let mut s = spec(c, obs_want());
+                    s.max_depth = d - 2;
+                    out.push(s);
+                }
             }
         }
         "C06" => {
@@ -423,6 +486,17 @@ pub fn plan(prop: &str, tier: Tier) -> Vec<RunSpec> {
                     let mut cb1 = raw(1, 1, 2);
                     cb1.callback = 2;
                     menu.push(cb1);
+                }
+                if prop == "C04" && matches!(k, Kind::Raw | Kind::TwoQ | Kind::Arc | Kind::Slru) {
+                    // drop glue on one side only: tracked keys with plain values, and the reverse
+                    for kt in [KeyTy::TrackedKeys, KeyTy::TrackedVals] {
+                        let mut c = small_menu(k, Tier::Quick)[0].clone();
+                        c.key_ty = kt;
+                        c.versions = 1;
+                        let mut w = obs_want();
+                        w.track_alloc = true;
+                        out.push(spec(c, w));
+                    }
                 }
                 if tier == Tier::Thorough {
                     menu.extend(policy_menu(k, Tier::Quick));
